@@ -49,6 +49,10 @@ def cnf_specs(draw, max_vars=4, terms=("a", "b"), max_rules=8, start_eps=True):
         if key not in seen:
             seen.add(key)
             R.append([A, rhs])
+    for A in V:
+        # most variables get a terminal rule, so that grammars are usually productive
+        if not any(r[0] == A and len(r[1]) == 1 for r in R) and draw(st.integers(0, 3)) > 0:
+            R.append([A, [T[draw(st.integers(0, len(T) - 1))]]])
     if start_eps and draw(st.integers(0, 3)) == 0:
         R.append([S, []])
     if draw(st.booleans()):
